@@ -241,7 +241,21 @@ def extract_unit(repo, unit_dir, out_path, variant=None):
 
     def load(rel):
         if rel not in src_cache:
-            p = os.path.join(repo, rel)
+            if rel.startswith('registry:'):
+                # dependency source, at the version /repo's Cargo.lock pins:  registry:<crate>/<path inside the crate>
+                import glob
+                crate, _, inner = rel[len('registry:'):].partition('/')
+                lock = open(os.path.join(repo, 'Cargo.lock')).read()
+                mm = re.search(r'name = "%s"\nversion = "([^"]+)"' % re.escape(crate), lock)
+                if not mm:
+                    raise LostAnchor('%s is not in Cargo.lock' % crate)
+                cands = glob.glob(os.path.expanduser('~/.cargo/registry/src/*/%s-%s/%s' % (crate, mm.group(1), inner)))
+                if not cands:
+                    raise LostAnchor('source of %s %s not found in the cargo registry' % (crate, mm.group(1)))
+                p = cands[0]
+                log.append({'rule': 'dependency source', 'crate': crate, 'version': mm.group(1), 'file': inner})
+            else:
+                p = os.path.join(repo, rel)
             if not os.path.exists(p):
                 raise LostAnchor('source file %s is missing' % rel)
             s = open(p).read()
@@ -254,8 +268,8 @@ def extract_unit(repo, unit_dir, out_path, variant=None):
         w = it.get('within')
         try:
             if w:
-                if w['kind'] == 'impl':
-                    spans = rl.impl_span(src, mask, w['name'])
+                if w['kind'] in ('impl', 'impl_for'):
+                    spans = rl.impl_span(src, mask, w['name']) if w['kind'] == 'impl' else rl.impl_for_span(src, mask, w['trait'], w['name'])
                     cands = []
                     for (a, b) in spans:
                         try:
